@@ -26,9 +26,13 @@
 (* CheckPermission for the whole request matrix, through the caches as the *)
 (* code goes through them).  Which mutators flush the RBAC caches is the   *)
 (* constant Unflushed (the set of operation kinds that do NOT flush):      *)
-(*   MC_*  : the flush set that is sufficient -- CacheCoherent must hold   *)
-(*   Var_* : the flush sets of the tree as written (direct / apply mode) -- *)
-(*           expected to fail; they document which omissions matter.       *)
+(*   MC_*  : the flush set of the tree as it is now (since fixes 5080e61    *)
+(*           and 53344f2) -- CacheCoherent must hold                       *)
+(*   Var_* : negative controls with one flush removed (tokenperms and      *)
+(*           deleteorg are the tree before those fixes) -- must fail.      *)
+(* The repaired code keys permCache by the token's own permissions; for    *)
+(* the answers this is the same as flushing that token's entries when its  *)
+(* permissions change, which is how SetTokenPerms is modelled.             *)
 (***************************************************************************)
 EXTENDS Naturals, Sequences, FiniteSets, TLC, Json
 
